@@ -15,6 +15,10 @@ import UgoVerif.Proofs.VMExec
   `throwF_goes_to_nearest_caller` (the error of a function without a live handler reaches
   the NEAREST calling frame that has one, which becomes current again — repair 9eeb286),
   `throwF_unhandled` (no live handler anywhere: the error is returned from Run).
+  Leaving by return/break/continue: `exec_findFinally` (the Go loop equals the list function
+  `ffSpec`), `ffSpec_suffix/found/none`, `finalizer_enters_pending_finally` (the NEAREST pending
+  finally block of the statements being left is entered, the jump is suspended in its handler,
+  enclosing statements that are not being left are not touched), `finalizer_no_pending`.
 
   The source-level statement `C03_full` (every script's log/outcome equals the
   reference semantics Spec/Sem) is NOT proved; it is tested by stream `sem`
@@ -284,6 +288,185 @@ theorem throwF_unhandled (fuel : Nat) (err : Addr) (s : State)
   · unfold throwF
     simp only [exec_bind, exec_curFrame, hcur, Bool.false_eq_true, ↓reduceIte, exec_getS, he]
     simp [exec_bind, exec_pure]
+
+/-! ### leaving try statements by return / break / continue (vm.go OpFinalizer, errHandlers.findFinally) -/
+
+/-- `errHandlers.findFinally(upto)` as a function of the handler list (innermost first): handlers of
+    the statements being left (index ≥ upto) are visited from the innermost outwards; one whose
+    finally block was already entered (`finally_ = 0`) is dropped, the first one with a pending
+    finally block stops the search. -/
+def ffSpec : List Handler → Int → Int × List Handler
+  | [], _ => (0, [])
+  | h :: r, upto =>
+    if ((r.length : Int) < upto) then (0, h :: r)
+    else if h.finally_ == 0 then ffSpec r upto
+    else (h.finally_, h :: r)
+
+theorem modify_handlers_id (fs : Array Frame) (i : Nat) (hs : List Handler) (hi : i < fs.size)
+    (hh : fs[i].handlers = some hs) : fs.modify i (fun f => { f with handlers := some hs }) = fs := by
+  apply Array.ext
+  · simp
+  · intro j h1 h2
+    by_cases hj : i = j
+    · subst hj; simp [Array.getElem_modify, ← hh]
+    · simp [Array.getElem_modify, hj]
+
+theorem modify_modify_handlers (fs : Array Frame) (i : Nat) (g : Frame → Frame) (hs : List Handler) :
+    (fs.modify i g).modify i (fun f => { f with handlers := some hs }) =
+      fs.modify i (fun f => { (g f) with handlers := some hs }) := by
+  apply Array.ext
+  · simp
+  · intro j h1 h2
+    by_cases hj : i = j
+    · subst hj; simp [Array.getElem_modify]
+    · simp [Array.getElem_modify, hj]
+
+theorem exec_findFinally (fuel : Nat) (upto : Int) (s : State) (hs : List Handler)
+    (hc : s.curFrame < s.frames.size) (hh : handlersOf s = some hs) (hf : hs.length < fuel) :
+    exec (findFinally fuel upto) s =
+      (.ok ((ffSpec hs upto).1 : Int),
+       { s with frames := s.frames.modify s.curFrame fun f => { f with handlers := some (ffSpec hs upto).2 } }) := by
+  induction hs generalizing fuel s with
+  | nil =>
+    cases fuel with
+    | zero => omega
+    | succ fuel =>
+      have hfr : s.frames[s.curFrame]! = s.frames[s.curFrame] := by simp [hc]
+      have hh' : s.frames[s.curFrame].handlers = some [] := by
+        unfold handlersOf at hh; rw [hfr] at hh; exact hh
+      unfold findFinally
+      simp only [exec_bind, exec_curFrame, hfr, hh']
+      simp [ffSpec, exec_pure, modify_handlers_id _ _ _ hc hh']
+  | cons h r ih =>
+    cases fuel with
+    | zero => omega
+    | succ fuel =>
+      have hfr : s.frames[s.curFrame]! = s.frames[s.curFrame] := by simp [hc]
+      have hh' : s.frames[s.curFrame].handlers = some (h :: r) := by
+        unfold handlersOf at hh; rw [hfr] at hh; exact hh
+      unfold findFinally
+      simp only [exec_bind, exec_curFrame, hfr, hh']
+      by_cases hlt : (r.length : Int) < upto
+      · have : ((((h :: r).length : Int) - 1 < upto) ∨ (((h :: r).length : Int) - 1 < 0)) := by
+          left; simp; omega
+        simp [this, ffSpec, hlt, exec_pure, modify_handlers_id _ _ _ hc hh']
+      · have hn : ¬ ((((h :: r).length : Int) - 1 < upto) ∨ (((h :: r).length : Int) - 1 < 0)) := by
+          simp; omega
+        have hr0 : ¬ ((r.length : Int) < 0) := by omega
+        by_cases hz : h.finally_ = 0
+        · have hs' : handlersOf ({ s with frames := s.frames.modify s.curFrame popHandler } : State) = some r := by
+            unfold handlersOf
+            simp [hc, Array.getElem_modify, popHandler, hh']
+          have := ih fuel { s with frames := s.frames.modify s.curFrame popHandler } (by simpa using hc) hs' (by simp at hf; omega)
+          simp [hn, hr0, hz, ffSpec, hlt, exec_bind, exec_setCurFrame, this, modify_modify_handlers]
+          congr 1
+          funext f
+          unfold popHandler
+          split <;> rfl
+        · simp [hn, hr0, hz, ffSpec, hlt, exec_pure, modify_handlers_id _ _ _ hc hh']
+
+/-- what the search drops are exactly consumed handlers (finally already entered), innermost first -/
+theorem ffSpec_suffix (hs : List Handler) (upto : Int) :
+    ∃ dropped, hs = dropped ++ (ffSpec hs upto).2 ∧ ∀ d ∈ dropped, d.finally_ = 0 := by
+  induction hs with
+  | nil => exact ⟨[], by simp [ffSpec], by simp⟩
+  | cons h r ih =>
+    unfold ffSpec
+    by_cases hlt : (r.length : Int) < upto
+    · exact ⟨[], by simp [hlt], by simp⟩
+    · by_cases hz : h.finally_ = 0
+      · obtain ⟨d, hd, hall⟩ := ih
+        refine ⟨h :: d, ?_, ?_⟩
+        · simp [hlt, hz]; exact hd
+        · intro x hx
+          simp at hx
+          rcases hx with rfl | hx
+          · exact hz
+          · exact hall x hx
+      · exact ⟨[], by simp [hlt, hz], by simp⟩
+
+/-- a pending finally block that is found belongs to one of the statements being left
+    (its index is at least the static depth `upto` of the jump target) and is the innermost such -/
+theorem ffSpec_found (hs : List Handler) (upto : Int) (h : (ffSpec hs upto).1 ≠ 0) :
+    ∃ x r, (ffSpec hs upto).2 = x :: r ∧ x.finally_ = (ffSpec hs upto).1 ∧ upto ≤ r.length := by
+  induction hs with
+  | nil => simp [ffSpec] at h
+  | cons a r ih =>
+    unfold ffSpec at h ⊢
+    by_cases hlt : (r.length : Int) < upto
+    · simp [hlt] at h
+    · by_cases hz : a.finally_ = 0
+      · simp only [hlt, hz, if_false, beq_self_eq_true, if_true] at h ⊢
+        exact ih h
+      · have hb : (a.finally_ == 0) = false := by simpa using hz
+        simp only [hlt, hb, if_false, Bool.false_eq_true] at h ⊢
+        exact ⟨a, r, rfl, rfl, by omega⟩
+
+/-- nothing found: no handler of a statement being left remains (those that were there had their
+    finally entered already and are dropped) -/
+theorem ffSpec_none (hs : List Handler) (upto : Int) (h : (ffSpec hs upto).1 = 0) :
+    ∀ x r, (ffSpec hs upto).2 = x :: r → (r.length : Int) < upto ∨ x.finally_ = 0 := by
+  induction hs with
+  | nil => intro x r hx; simp [ffSpec] at hx
+  | cons a r ih =>
+    unfold ffSpec at h ⊢
+    by_cases hlt : (r.length : Int) < upto
+    · intro x r' hx
+      simp [hlt] at hx
+      left; rw [← hx.2]; exact hlt
+    · by_cases hz : a.finally_ = 0
+      · simp only [hlt, hz, if_false, beq_self_eq_true, if_true] at h ⊢
+        exact ih h
+      · have hb : (a.finally_ == 0) = false := by simpa using hz
+        simp only [hlt, hb, if_false, Bool.false_eq_true] at h
+        exact absurd h hz
+
+/-- FINALIZER k (emitted before every `return`/`break`/`continue` that leaves try statements down to
+    static depth k) with a pending finally block among the statements being left: the jump is
+    suspended — its resume address and stack height are recorded in that statement's handler, any
+    pending error of it is cancelled — and control enters the NEAREST pending finally block. -/
+theorem finalizer_enters_pending_finally (s : State) (hs : List Handler) (upto : Nat)
+    (hop : exec (opnd1 1) s = (.ok upto, s)) (hc : s.curFrame < s.frames.size)
+    (hh : handlersOf s = some hs) (hpos : (ffSpec hs upto).1 > 0) :
+    ∃ x r, (ffSpec hs upto).2 = x :: r ∧ x.finally_ = (ffSpec hs upto).1 ∧ (upto : Int) ≤ r.length ∧
+      exec execFinalizer s = (.ok .next,
+        { s with frames := s.frames.modify s.curFrame (fun f =>
+                   { f with handlers := some ({ x with returnTo := s.ip, sp := s.sp, err := none } :: r) }),
+                 ip := x.finally_ - 1 }) := by
+  obtain ⟨x, r, hx, hfin, hup⟩ := ffSpec_found hs upto (by omega)
+  refine ⟨x, r, hx, hfin, hup, ?_⟩
+  have hfr : s.frames[s.curFrame]! = s.frames[s.curFrame] := by simp [hc]
+  have hh' : s.frames[s.curFrame].handlers = some hs := by
+    unfold handlersOf at hh; rw [hfr] at hh; exact hh
+  unfold execFinalizer
+  simp only [exec_bind, hop, exec_curFrame, hfr, hh']
+  rw [exec_findFinally _ _ s hs hc hh (by omega)]
+  have hnp : ¬ ((ffSpec hs ↑upto).1 ≤ 0) := by omega
+  simp only [hnp, if_false, exec_getIp, exec_getSp, exec_setCurFrame, exec_setIp, exec_pure, exec_bind]
+  simp only [hx, ← hfin]
+  congr 2
+  apply Array.ext
+  · simp
+  · intro j h1 h2
+    by_cases hj : s.curFrame = j
+    · subst hj; simp [Array.getElem_modify, setLast]
+    · simp [Array.getElem_modify, hj]
+
+/-- FINALIZER k with no pending finally block among the statements being left: their (consumed)
+    handlers are dropped and the jump proceeds at once -/
+theorem finalizer_no_pending (s : State) (hs : List Handler) (upto : Nat)
+    (hop : exec (opnd1 1) s = (.ok upto, s)) (hc : s.curFrame < s.frames.size)
+    (hh : handlersOf s = some hs) (hpos : (ffSpec hs upto).1 ≤ 0) :
+    exec execFinalizer s = (.ok .next,
+      { s with frames := s.frames.modify s.curFrame (fun f => { f with handlers := some (ffSpec hs upto).2 }),
+               ip := s.ip + 1 }) := by
+  have hfr : s.frames[s.curFrame]! = s.frames[s.curFrame] := by simp [hc]
+  have hh' : s.frames[s.curFrame].handlers = some hs := by
+    unfold handlersOf at hh; rw [hfr] at hh; exact hh
+  unfold execFinalizer
+  simp only [exec_bind, hop, exec_curFrame, hfr, hh']
+  rw [exec_findFinally _ _ s hs hc hh (by omega)]
+  simp only [hpos, if_true, exec_bumpIp, exec_pure, exec_bind]
 
 /-- the source-level statement (not proved; tested by stream `sem`): for every script of the
     try/loop/call fragment, the implementation's log and outcome are those of the reference
